@@ -10,7 +10,7 @@ COMPONENTS = {
 }
 
 
-def make(profiles, monitors, prop, own_tree=False, prelude=None, finale=None):
+def make(profiles, monitors, prop, own_tree=False, prelude=None, finale=None, differential=None):
     """profiles: dict name -> Profile (the first is the default, chosen per run by stream swarm)."""
     names = sorted(profiles)
 
@@ -18,13 +18,25 @@ def make(profiles, monitors, prop, own_tree=False, prelude=None, finale=None):
         from . import seeds
         pick = seeds.Streams(run_seed).get("profile").randrange(len(names))
         prof = profiles[names[pick]]
-        return run_session(prop, run_seed, prof, monitors, known=known, own_tree=own_tree,
-                           prelude=prelude, finale=finale)
+        res = run_session(prop, run_seed, prof, monitors, known=known, own_tree=own_tree,
+                          prelude=prelude, finale=finale, keep_snapshots=differential is not None)
+        if differential is not None and res.violation is None:
+            differential(res, lambda case, leave_out: run_session(
+                prop, case["run_seed"], prof, [], ops=case["ops"], own_tree=own_tree,
+                prelude=prelude, config=case.get("config"), leave_out=leave_out,
+                keep_snapshots=True))
+        return res
 
     def execute(case, known=None):
         prof = profiles[case["profile"]]
-        return run_session(prop, case["run_seed"], prof, monitors, ops=case["ops"], known=known,
-                           own_tree=own_tree, prelude=prelude, finale=finale,
-                           config=case.get("config"))
+        res = run_session(prop, case["run_seed"], prof, monitors, ops=case["ops"], known=known,
+                          own_tree=own_tree, prelude=prelude, finale=finale,
+                          config=case.get("config"), keep_snapshots=differential is not None)
+        if differential is not None and res.violation is None:
+            differential(res, lambda c, leave_out: run_session(
+                prop, c["run_seed"], prof, [], ops=c["ops"], own_tree=own_tree,
+                prelude=prelude, config=c.get("config"), leave_out=leave_out,
+                keep_snapshots=True))
+        return res
 
     return explore, execute
